@@ -390,11 +390,15 @@ static void runC28(bool thorough, int shard, int nsh) {
     };
     long idx = 0;
     std::vector<Step> seq;
+    // pass A: all sequences of length <= 3 over the 9 constructors, 4 variants (leaf order x logic).  pass B (thorough): the sequences
+    // of length exactly 4 over the 5 constructors {and, =, +, <=, f} in the default variant (the full length-4 space is ~10^9 builds).
+    int nVariants = 4, judgeFrom = 1; bool opAllowed[NOPS]; for (bool & x : opAllowed) x = true;
+    L = 3;
     std::function<void(int)> rec = [&](int depth) {
-        if (depth > 0) {
+        if (depth >= judgeFrom) {
             if ((idx++ % nsh) == shard) {
                 std::vector<std::string> s1, s2;
-                for (int variant = 0; variant < 4; variant++) {
+                for (int variant = 0; variant < nVariants; variant++) {
                     leafOrder = variant & 1; pureLRA = variant >> 1;
                     s1.clear(); s2.clear();
                     if (build(seq, false, &s1)) {
@@ -411,10 +415,16 @@ static void runC28(bool thorough, int shard, int nsh) {
         if (depth == L) return;
         int nterms = 6 + depth;
         for (int op = 0; op < NOPS; op++) for (int a = 0; a < nterms; a++) for (int b = 0; b < (op == 3 || op == 7 ? 1 : nterms); b++) {
+            if (!opAllowed[op]) continue;
             seq.push_back({op, a, b}); rec(depth + 1); seq.pop_back();
         }
     };
     rec(0);
+    if (thorough) {
+        L = 4; nVariants = 1; judgeFrom = 4; idx = 0;
+        for (int op = 0; op < NOPS; op++) opAllowed[op] = (op == 0 || op == 2 || op == 4 || op == 5 || op == 7);
+        rec(0);
+    }
     if (shard == 0) printf("SAMPLE\tsequence: t6=(and p q); t7=(not t6); t8=(= t7 p)  -- built twice, second time with commutative arguments swapped\n");
 }
 
